@@ -19,9 +19,15 @@ mod util;
 
 use ev::{Ctx, Tier};
 
+/// Every way out kills the server processes still registered (destructors do not run on exit()).
+fn exit_clean(code: i32) -> ! {
+    proc::kill_registered_children();
+    std::process::exit(code)
+}
+
 fn usage() -> ! {
     eprintln!("usage: rtmc check <ID> [--tier quick|thorough] | replay <file> | selftest | cfgprobe <arg>");
-    std::process::exit(2);
+    exit_clean(2);
 }
 
 /// One pass of a check; Some(message) if the machinery failed.
@@ -48,11 +54,12 @@ fn main() {
     // Panics of the harness itself are machinery errors. Panics of the subject are caught by
     // the checks with catch_unwind; the hook stays quiet for those (see util::quiet_panics).
     util::install_panic_hook();
+    proc::install_child_reaper();
     match args[1].as_str() {
         "selftest" => {
             if let Err(e) = rtref::selftest() {
                 eprintln!("MACHINERY-ERROR rtref selftest failed: {}", e);
-                std::process::exit(2);
+                exit_clean(2);
             }
             println!("rtref selftest ok");
         }
@@ -94,7 +101,7 @@ fn main() {
             }
             if let Err(e) = rtref::selftest() {
                 eprintln!("MACHINERY-ERROR rtref selftest failed: {}", e);
-                std::process::exit(2);
+                exit_clean(2);
             }
             let seed = std::env::var("VERIF_SEED").ok().and_then(|s| s.parse::<u64>().ok()).unwrap_or(1);
             inproc::watchdog_identity(&id, tier.name(), seed);
@@ -122,19 +129,19 @@ fn main() {
                 // A machinery error is never a verdict; but witnesses recorded before it are: each
                 // is a concrete failing input/history with its own replay file.
                 if ctx.unlisted_count() == 0 {
-                    std::process::exit(2);
+                    exit_clean(2);
                 }
                 ctx.cov("aborted_by_machinery_error", serde_json::json!(e));
             }
             let code = ctx.finish();
-            std::process::exit(code);
+            exit_clean(code);
         }
         "replay" => {
             if args.len() < 3 {
                 usage();
             }
             let code = checks::replay(&args[2]);
-            std::process::exit(code);
+            exit_clean(code);
         }
         _ => usage(),
     }
